@@ -10,7 +10,12 @@ opposite to stil.py.
 oracle        : real `stil.parse(text).tests/tests_loc/responses(circuit)` vs ground truth, rows in `circuit.s_nodes` order
 correspondence: Lean model (driver command `stil`, fed with the REAL parse result) vs real, on every case:
                 extracted patterns, tests, responses, tests_loc init matrix, tests_loc (the simulated next state is
-                obtained by running the real LogicSim on the init matrix and handed to the model)."""
+                obtained by running the real LogicSim on the init matrix and handed to the model);
+                end to end (composition with C02): the model's OWN simulation `StilSim.nxtOf` (driver `stilsim nxt`: SimOps
+                model + real 8-valued dispatch on the canonical netlist dump of the same circuit) vs the rows `s[1]` of the real
+                LogicSim that tests_loc builds (recorded inside the call and recomputed on the init matrix), and
+                `tests_loc` of the model with that simulation (`stilsim loc`) vs the real result; the hypotheses of
+                `C18.tests_loc_end_to_end` (compatB, wfB, orderOKB, forksOKB) are evaluated on every case."""
 import json
 import numpy as np
 from . import common
@@ -381,11 +386,21 @@ def run_real(case):
         keep = {}
         def filt(init):
             keep['init'] = np.array(init); return init
+        real_sim = stil.LogicSim
+        class Rec(real_sim):                       # records the simulator object tests_loc creates (behaviour unchanged)
+            def __init__(self, *a, **k):
+                super().__init__(*a, **k); keep['sim'] = self
+        stil.LogicSim = Rec
         try:
             res['loc'] = ('ok', cols_of(s.tests_loc(c, init_filter=filt)))
         except Exception as ex:
             res['loc'] = ('err', err_class(ex), f'{type(ex).__name__}: {ex}'[:200])
+        finally:
+            stil.LogicSim = real_sim
         if 'init' in keep: res['locinit'] = ('ok', cols_of(keep['init']))
+        if 'sim' in keep and 'init' in keep and res['loc'][0] == 'ok':
+            from kyupy import logic
+            res['locsim'] = ('ok', cols_of(logic.bp_to_mv(keep['sim'].s[1])[..., :keep['init'].shape[-1]]))
     return c, s, res
 
 
@@ -419,6 +434,22 @@ def request(fn, mode, c, s, nxt=None):
     chains = '|'.join(pct(v[0]) + ':' + pct(v[-1]) + ':' + enc_list([pct(x) for x in v[1:-1]]) for v in s.scan_chains.values()) or '-'
     calls = '|'.join(pct(cl.name) + ':' + enc_list([pct(k) + '=' + pct(v) for k, v in cl.parameters.items()]) for cl in s.calls) or '-'
     return f"stil {fn} {mode} {circ} {groups} {chains} {calls} {'|'.join(nxt) if nxt else '-'}"
+
+
+def request_sim(fn, mode, c, s):
+    """`stilsim`: the model simulates by itself — needs the netlist (canonical dump), the node names and the REAL order"""
+    from . import circ as circ_mod
+    base = request(fn, mode, c, s).split(' ')
+    net = circ_mod.dump_net(c).replace(' ', '')
+    names = enc_list([pct(n.name) for n in c.nodes])
+    order = enc_list([str(n.index) for n in c.topological_order()])
+    return f"stilsim {fn} {mode} {' '.join(base[3:7])} {net} {names} {order}"
+
+
+def parse_sim(ans):
+    """`compat=<b> ok cols` -> (compat, parsed)"""
+    head, _, rest = ans.partition(' ')
+    return head == 'compat=true', parse_cols(rest)
 
 
 def unpct(t):
@@ -455,7 +486,7 @@ def same(real, model):
     return model[0] == 'err' and model[1] == real[1]
 
 
-def model_all(c, s, res, mode):
+def model_all(c, s, res, mode, sim=False):
     """model answers for the three functions in one interface/inversion mode; nxt from the real simulator"""
     out = {}
     a = common.run_driver([request('tests', mode, c, s), request('responses', mode, c, s), request('locinit', mode, c, s)])
@@ -465,6 +496,11 @@ def model_all(c, s, res, mode):
         nxt = simulate(c, out['locinit'][1])
     out['loc'] = parse_cols(common.run_driver([request('loc', mode, c, s, nxt)])[0])
     if out['loc'][0] == 'ok' and not out['locinit'][1]: out['loc'] = ('ok', [])
+    out['nxt_real'] = nxt
+    if sim:
+        a = common.run_driver([request_sim('nxt', mode, c, s), request_sim('loc', mode, c, s)])
+        out['compat'], out['nxt_model'] = parse_sim(a[0])
+        _, out['locfull'] = parse_sim(a[1])
     return out
 
 
@@ -549,10 +585,11 @@ def corr_case(ck, case, viol):
         ck.broken_tie('model Stil.extract vs StilFile.__init__', f'patterns differ: model {got[:2]} real {real[:2]}', inp=case)
         return
     # (2) the three functions, property mode
-    m = model_all(c, s, res, 'sf')
+    m = model_all(c, s, res, 'sf', sim=True)
     bad = [fn for fn in ('tests', 'responses', 'loc') + (('locinit',) if 'locinit' in res else ()) if not same(res[fn], m[fn])]
     if not bad:
         ck.hist['corr:model=real'] += 1
+        e2e_corr(ck, case, c, s, res, m)
     else:
         label, mode = classify(c, s, res)
         if viol and mode is not None:
@@ -568,6 +605,38 @@ def corr_case(ck, case, viol):
                 ck.broken_tie(f'model Stil.{fn} (property mode) vs generator ground truth',
                               f'{m[fn]} vs {diff_cols(m[fn][1], exp, names) if m[fn][0] == "ok" else None}'[:600], inp=case)
                 break
+
+
+def e2e_corr(ck, case, c, s, res, m):
+    """end-to-end tie (C18.tests_loc_end_to_end): the model's own simulation against the real simulator inside tests_loc"""
+    # hypotheses of the theorem on the real circuit / order
+    if not m['compat']:
+        ck.broken_tie('hypothesis StilSim.compatB (Circ and Net views of the same circuit)', 'compat=false', inp=case)
+        return
+    tag = common.allcirc_hyp(ck, c, [False], 'C18 tests_loc')
+    ck.hist['e2e:' + tag] += 1
+    ck.hist['e2e:' + common.netspec_hyp(c)] += 1
+    # (a) nxtOf vs the rows of the real LogicSim: recorded inside tests_loc, and recomputed on the init matrix
+    if 'locsim' in res:
+        if m['nxt_model'] != ('ok', res['locsim'][1]):
+            ck.broken_tie('model StilSim.nxtOf vs s[1] of the LogicSim inside the real tests_loc',
+                          f"real {res['locsim'][1]} model {m['nxt_model']}"[:600], inp=case)
+            return
+        ck.hist['e2e:nxtOf=real-sim-rows(recorded)'] += 1
+    if m['nxt_real'] is not None:
+        if m['nxt_model'] != ('ok', m['nxt_real']):
+            ck.broken_tie('model StilSim.nxtOf vs real LogicSim rows (recomputed on the init matrix)',
+                          f"real {m['nxt_real']} model {m['nxt_model']}"[:600], inp=case)
+            return
+        ck.hist['e2e:nxtOf=real-sim-rows(recomputed)'] += 1
+    # (b) tests_loc of the model with its own simulation vs the real tests_loc
+    if res['loc'][0] == 'ok' and res['loc'][1] == [] and m['locfull'][0] == 'ok':
+        m['locfull'] = ('ok', [])
+    if not same(res['loc'], m['locfull']):
+        ck.broken_tie('model StilSim.testsLocFull (tests_loc with the model\'s own simulation) vs StilFile.tests_loc',
+                      f"real {res['loc']} model {m['locfull']}"[:600], inp=case)
+        return
+    ck.hist['e2e:tests_loc(model simulation)=real'] += 1
 
 
 def fixed_cases():
@@ -659,7 +728,9 @@ def run(ck):
         (first if v['class'] not in seen else rest).append(v); seen.add(v['class'])
     ck.violations[:] = first + rest
     ck.assumptions += ['lark grammar/lexer of stil.py: exercised through generated texts, not modelled (the model starts at the parse result)',
-                       'the 8-valued simulation inside tests_loc is a parameter of the model (real LogicSim run on the init matrix); '
+                       'the 8-valued simulation inside tests_loc: theorem tests_loc_end_to_end speaks about StilSim.nxtOf (SimOps model + real '
+                       '8-valued dispatch on the netlist dump); nxtOf = rows of the real LogicSim inside tests_loc and the hypotheses '
+                       'compatB/wfB/orderOKB/forksOKB are compared / evaluated on every generated case (tags e2e:*); '
                        'ground truth for the next state is the generator\'s own gate-by-gate evaluation with the documented algebra',
                        'NumPy broadcasting of one-character strings is outside the model (strings have chain/group length)',
                        'X and - are not distinguished where the property gives no expectation (unload X/N characters, LoC values with an unknown side)']
